@@ -1070,16 +1070,13 @@ class unyt_array(np.ndarray):
             um = us.units_map
             u = self.units
             if u.dimensions in um and u.expr == um[self.units.dimensions]:
-                return self.copy()
-            to_units, (conv, offset) = _em_conversion(u, conv_data, unit_system=us)
+                to_units = u
+            else:
+                to_units, _ = _em_conversion(u, conv_data, unit_system=us)
         else:
             to_units = self.units.get_base_equivalent(unit_system)
-            # same dtype rule, same overflow warning as every other copying route
-            return self.in_units(to_units)
-        ret = self.v * conv
-        if offset:
-            ret = ret - offset
-        return type(self)(ret, to_units)
+        # same dtype rule, same overflow warning as every other copying route
+        return self.in_units(to_units)
 
     def in_cgs(self):
         """
